@@ -61,6 +61,7 @@ static int asn1c_recurse(arg_t *arg, asn1p_expr_t *expr, int (*callback)(arg_t *
 static asn1p_expr_type_e expr_get_type(arg_t *arg, asn1p_expr_t *expr);
 static int try_inline_default(arg_t *arg, asn1p_expr_t *expr, int out);
 static int *compute_canonical_members_order(arg_t *arg, int el_count);
+static const char *comment_safe(const char *str);
 
 enum tvm_compat {
 	_TVM_SAME	= 0,	/* tags and all_tags are same */
@@ -1298,8 +1299,8 @@ asn1c_lang_C_type_SIMPLE_TYPE(arg_t *arg) {
 			if((expr->marker.flags & (EM_DEFAULT & ~EM_INDIRECT))
 					== (EM_DEFAULT & ~EM_INDIRECT))
 				OUT("\t/* DEFAULT %s */",
-					asn1f_printable_value(
-						expr->marker.default_value));
+					comment_safe(asn1f_printable_value(
+						expr->marker.default_value)));
 			else if((expr->marker.flags & EM_OPTIONAL)
 					== EM_OPTIONAL)
 				OUT("\t/* OPTIONAL */");
@@ -2319,6 +2320,25 @@ safe_string(const uint8_t *buf, int size) {
 	return 1;
 }
 
+/*
+ * A copy of the string which does not terminate the C comment it is placed in:
+ * the slash of each "*" "/" pair is replaced with '|'.
+ */
+static const char *
+comment_safe(const char *str) {
+	static char *buf;
+	char *p;
+
+	if(!str) return "";
+	p = realloc(buf, strlen(str) + 1);
+	if(!p) return "";
+	buf = strcpy(p, str);
+	while((p = strstr(p, "*/")))
+		p[1] = '|';
+
+	return buf;
+}
+
 static void
 emit_default_string_value(arg_t *arg, asn1p_value_t *v) {
 
@@ -2452,11 +2472,13 @@ try_inline_default(arg_t *arg, asn1p_expr_t *expr, int out) {
             if(C99_MODE) OUT(".default_value_cmp = ");
 			OUT("&asn_DFL_%d_cmp,\t/* Compare DEFAULT \"%s\" */\n",
 				expr->_type_unique_index,
-				expr->marker.default_value->value.string.buf);
+				comment_safe((const char *)
+					expr->marker.default_value->value.string.buf));
             if(C99_MODE) OUT(".default_value_set = ");
 			OUT("&asn_DFL_%d_set,\t/* Set DEFAULT \"%s\" */\n",
 				expr->_type_unique_index,
-				expr->marker.default_value->value.string.buf);
+				comment_safe((const char *)
+					expr->marker.default_value->value.string.buf));
 			return 1;
 		}
 		REDIR(OT_STAT_DEFS);
